@@ -15,7 +15,9 @@ Definition point_ok (p : point) : Prop := let '(x, y, z) := p in u64 x /\ u64 y 
     infinities since 4fc5f5f) *)
 Definition vertex_ok (p : point) : Prop :=
   point_ok p /\ let '(x, y, z) := p in nonfinite_bits x = false /\ nonfinite_bits y = false /\ nonfinite_bits z = false.
-Definition rect_ok (r : rect) : Prop := u64 (r_lat_lo r) /\ u64 (r_lat_hi r) /\ u64 (r_lng_lo r) /\ u64 (r_lng_hi r).
+(** a rectangle the decoder accepts: 64-bit patterns of a valid rectangle (41c9631) *)
+Definition rect_ok (r : rect) : Prop :=
+  (u64 (r_lat_lo r) /\ u64 (r_lat_hi r) /\ u64 (r_lng_lo r) /\ u64 (r_lng_hi r)) /\ rect_valid r = true.
 Definition cap_ok (c : cap) : Prop := point_ok (c_center c) /\ u64 (c_radius c).
 (** a Loop the lossless encoder can write and the decoder accepts: the vertex count is within
     maxEncodedVertices (Loop.encode itself does not check it) and the depth fits its 32-bit field *)
@@ -98,14 +100,30 @@ Proof. intros H. apply run_app. intros t lg. exists lg. now apply decode_cap_bod
 Lemma decode_rect_body_app r t lg : rect_ok r ->
   decode_rect_body ((encode_rect r ++ t) @ lg) = (r, t @ lg).
 Proof.
-  destruct r as [a b c e]. intros (Ha & Hb & Hc & He). unfold decode_rect_body, encode_rect.
+  destruct r as [a b c e]. intros ((Ha & Hb & Hc & He) & V). unfold decode_rect_body, encode_rect.
   cbn [r_lat_lo r_lat_hi r_lng_lo r_lng_hi] in *. norm_app.
   rewrite read_u8_cons by (rewrite version_byte_val; lia). rewrite version_ok, Z.eqb_refl. cbn [negb andb].
   rewrite read_u64_app by auto. rewrite read_u64_app by auto. rewrite read_u64_app by auto.
-  now rewrite read_u64_app by auto.
+  rewrite read_u64_app by auto. cbn [failed d_st negb andb]. now rewrite V.
 Qed.
 Lemma roundtrip_rect r : rect_ok r -> decode_rect (encode_rect r) = Ok r.
 Proof. intros H. apply run_app. intros t lg. exists lg. now apply decode_rect_body_app. Qed.
+
+(** an invalid rectangle is refused (intended since 41c9631: Rect.Decode checks IsValid) *)
+Lemma rect_invalid_refuted r : u64 (r_lat_lo r) -> u64 (r_lat_hi r) -> u64 (r_lng_lo r) -> u64 (r_lng_hi r) ->
+  rect_valid r = false -> decode_rect (encode_rect r) = Err.
+Proof.
+  destruct r as [a b c e]. cbn [r_lat_lo r_lat_hi r_lng_lo r_lng_hi]. intros Ha Hb Hc He V.
+  rewrite <- (app_nil_r (encode_rect (mkrect a b c e))).
+  unfold decode_rect, run, dec_init, decode_rect_body, encode_rect. cbn [r_lat_lo r_lat_hi r_lng_lo r_lng_hi]. norm_app.
+  rewrite read_u8_cons by (rewrite version_byte_val; lia). rewrite version_ok, Z.eqb_refl. cbn [negb andb].
+  rewrite read_u64_app by auto. rewrite read_u64_app by auto. rewrite read_u64_app by auto.
+  rewrite read_u64_app by auto. cbn [failed d_st negb andb]. rewrite V. reflexivity.
+Qed.
+Example rect_invalid_example :
+  let r := mkrect 4611686018427387904 0 0 0 in   (* lat.lo = 2.0 > pi/2 *)
+  rect_valid r = false /\ decode_rect (encode_rect r) = Err.
+Proof. split; vm_compute; reflexivity. Qed.
 
 (** ** CellID and Cell *)
 Lemma decode_cellid_body_app id t lg : u64 id ->
@@ -317,6 +335,19 @@ Proof.
   unfold encode_polygon_lossless. destruct (s2_maxEncodedLoops <? len (p_loops p)) eqn:C.
   - apply Z.ltb_lt in C. split; auto.
   - apply Z.ltb_ge in C. split; [discriminate|lia].
+Qed.
+
+(** a loop of unit-length vertices with its computed bound meets the guards *)
+Example roundtrip_unit_loop_example :
+  let one := 4607182418800017408 in
+  (* (1,0,0), (0,1,0), (0,0,1); bound = lat [0, pi/2], lng [0, pi/2] *)
+  let l := mkloop [(one, 0, 0); (0, one, 0); (0, 0, one)] false 0
+                  (mkrect 0 4609753056924675352 0 4609753056924675352) in
+  loop_ok l /\ decode_loop (encode_loop l) = Ok l.
+Proof.
+  split.
+  - repeat split; cbn; try lia; repeat constructor; cbn; unfold u64; try lia; try discriminate; try reflexivity.
+  - vm_compute. reflexivity.
 Qed.
 
 (** the hypotheses are satisfiable *)
